@@ -5,9 +5,9 @@ from ..extra_c14 import extra_run
 globals().update(
     make(
         pid="C14",
-        props=["JaqalProofs/Props/C14.lean"],
-        targets=["JaqalProofs.Props.C14"],
-        diffs=[("harness.agents.build_diff", 700, 6000), ("harness.agents.c14_inject", 120, 250)],
+        props=["JaqalProofs/Props/C14.lean", "JaqalProofs/Props/C14Run.lean"],
+        targets=["JaqalProofs.Props.C14", "JaqalProofs.Props.C14Run"],
+        diffs=[("harness.agents.build_diff", 700, 6000), ("harness.agents.c14_inject", 120, 250), ("harness.agents.c14_edge", 2000, 10000)],
         extra_run=extra_run,
         trusted=[
             STD_TRUST,
